@@ -38,6 +38,14 @@ def check(repo, col, tier):
     from . import c01_solver
     col.rule("R-C12-merge", "merged level schedule contains every level of every cell", 1)
     c01_solver._merge(repo, col, "R-C12-merge")
+    # a network's edge table interleaves the cells' edge blocks (cell 0 type 1, cell 0 type 2, cell 1 type 1, ...): the coupling
+    # conductances must be computed row by row in TABLE order, and every cell's own edge table must attach branch points to each
+    # branch's own first / last compartment (shared with C01/C02/C13)
+    from . import cable
+    col.rule("R-C12-conductances", "coupling conductances are computed for the edge rows in table order, with the roles of each row", 6)
+    cable.check_axial(repo, col, {"roles": "R-C12-conductances", "cap": "R-C12-conductances"}, want=("roles", "cap"))
+    col.rule("R-C12-ends", "a cell's branch-point edges attach at each branch's own first / last compartment", 4)
+    c01_solver._ends(repo, col, "R-C12-ends")
 
 
 def _stores(ex, name):
@@ -82,8 +90,7 @@ def _concat(repo, col):
                   node=gbi[0].node if gbi else fi.node)
         gce = _stores(ex, "global_cell_index")
         if cls == "Network":
-            okx = bool(gce) and idx.same_expr(repo, fi, gce[0].stmt, gce[0].stmt.value,
-                                             "list(itertools.chain(*[[i] * int(cell.cumsum_ncomp[-1]) for i, cell in enumerate(cells)]))")
+            okx = bool(gce) and _cell_index_blocks(repo, fi, ex, gce[0])
         elif cls == "Cell":
             okx = bool(gce) and idx.same_expr(repo, fi, gce[0].stmt, gce[0].stmt.value, "np.repeat(0, self.cumsum_ncomp[-1]).tolist()")
         else:
@@ -114,19 +121,88 @@ def _concat(repo, col):
               "for cell in cells: xyzr += <copy of cell.xyzr>", "the coordinates of the network are not collected from its cells in order", node=fi.node)
 
 
+def _is_cells(t):
+    return (t.op == "param" and t.name == "cells") or (t.op == "attr" and t.name in ("_cells_list", "cells"))
+
+
+def _cell_index_blocks(repo, fi, ex, store) -> bool:
+    """global_cell_index = cell position c repeated (number of compartments of cell c) times, cells in order -- written as a
+    chain of per-cell lists `[i] * n_i` or as np.repeat(arange(#cells), [n_c ...])."""
+    from sa.terms import align_positions
+    t = align_positions(idx.inline(repo, fi, store.value))
+    ncell = lambda x: T.find(x, lambda y: y.op == "sub" and y.args[0].op == "attr" and y.args[0].name == "cumsum_ncomp" and
+                             y.args[0].args[0].op == "elem" and _is_cells(y.args[0].args[0].args[0])) is not None
+    # np.repeat(np.arange(len(cells)), [n_c for cell in cells])
+    rp = T.find(t, lambda x: x.op == "mcall" and x.name == "repeat" and len(x.args) == 3)
+    if rp is not None:
+        vals, cnts = rp.args[1], rp.args[2]
+        v_ok = vals.op == "mcall" and vals.name == "arange" and len(vals.args) == 2 and vals.args[1].op == "call" and \
+            vals.args[1].name == "len" and _is_cells(vals.args[1].args[0])
+        c_ok = cnts.op == "comp" and _is_cells(cnts.args[1]) and ncell(cnts.args[0])
+        return v_ok and c_ok
+    # chain(*[[i] * n_i for i, cell in enumerate(cells)])
+    cm = T.find(t, lambda x: x.op == "comp" and len(x.args) == 2 and x.args[0].op == "binop" and x.args[0].name == "*")
+    if cm is not None and T.find(t, lambda x: x.op in ("mcall", "call") and x.name in ("chain", "from_iterable", "concatenate", "sum")) is not None:
+        a_, b_ = cm.args[0].args
+        lst, cnt = (a_, b_) if a_.op == "list" else (b_, a_)
+        v_ok = lst.op == "list" and len(lst.args) == 1 and lst.args[0].op == "pos" and _is_cells(lst.args[0].args[0])
+        it_ok = cm.args[1].op == "call" and cm.args[1].name == "enumerate" and _is_cells(cm.args[1].args[0])
+        return v_ok and ncell(cnt) and it_ok
+    return False
+
+
+def _shifted_parents(repo, fi, value):
+    """comb_parents = concatenation over the cells, in order, of `cell.comb_parents.at[1:].add(O_c)` with O_c the number of
+    branches of the cells before cell c (entry c of the leading-zero cumulative sum of the cells' branch counts)."""
+    from sa.terms import align_positions
+    t = align_positions(idx.inline(repo, fi, value))
+    cat = t if (t.op == "mcall" and t.name in ("concatenate", "hstack")) else T.find(t, lambda x: x.op == "mcall" and x.name in ("concatenate", "hstack"))
+    if cat is None:
+        return "UNDECIDED", "not a concatenation over the cells"
+    adds = [x for x in cat.walk() if x.op == "mcall" and x.name in ("add", "set") and x.args and x.args[0].op == "sub" and
+            x.args[0].args[0].op == "attr" and x.args[0].args[0].name == "at"]
+    if len(adds) != 1:
+        return "UNDECIDED", f"{len(adds)} shifted blocks found"
+    ad = adds[0]
+    P, sl_, O = ad.args[0].args[0].args[0], ad.args[0].args[1], (ad.args[1] if len(ad.args) > 1 else None)
+    if ad.name != "add" or O is None:
+        return "VIOLATED", "the offset must be ADDED to the parent indices"
+    p_ok = P.op == "attr" and P.name == "comb_parents" and P.args[0].op == "elem" and _is_cells(P.args[0].args[0])
+    if not p_ok:
+        return "UNDECIDED", f"shifted array is {P.short(60)}"
+    s_ok = sl_.op == "slice" and sl_.args[0].op == "const" and sl_.args[0].name == 1 and sl_.args[1].op == "const" and sl_.args[1].name is None
+    if not s_ok:
+        return "VIOLATED", f"the entries shifted are [{sl_.short(30)}]: all entries but the root's -1 (index 0) must be shifted"
+
+    def is_branch_cumsum(S):
+        return (T.find(S, lambda x: x.op in ("mcall", "call") and x.name in ("cumsum", "cumsum_leading_zero")) is not None and
+                T.find(S, lambda x: x.op == "attr" and x.name in ("total_nbranches", "nbranches_per_cell")) is not None) or \
+            (S.op == "attr" and S.name == "_cumsum_nbranches")
+    # O = S[pos(cells)]  or  the lock-step element of S[:-1]
+    if O.op == "sub" and O.args[1].op == "pos" and _is_cells(O.args[1].args[0]) and is_branch_cumsum(O.args[0]):
+        return "DISCHARGED", ""
+    if O.op == "elem" and O.args[0].op == "sub" and O.args[0].args[1].op == "slice" and is_branch_cumsum(O.args[0].args[0]):
+        lo, hi, st = O.args[0].args[1].args
+        minus1 = (hi.op == "const" and hi.name == -1) or (hi.op == "unary" and hi.name == "USub" and hi.args[0].op == "const" and hi.args[0].name == 1)
+        if lo.op == "const" and lo.name is None and minus1:
+            return "DISCHARGED", ""
+        return "VIOLATED", f"cell c is shifted by entry c of `{O.args[0].short(60)}`: that is not the number of branches before cell c"
+    if O.op == "sub" and is_branch_cumsum(O.args[0]):
+        return "VIOLATED", f"cell c is shifted by `{O.short(60)}`: not entry c of the leading-zero cumulative branch count"
+    return "UNDECIDED", f"offset is {O.short(80)}"
+
+
 def _offsets(repo, col):
     R = "R-C12-offsets"
     fi = repo.method("Network", "__init__")
     ex = idx.expander(repo, fi)
     cp = [s for s in ex.stores if s.kind == "attr" and s.key.name == "comb_parents"]
     t = unparse(cp[-1].stmt.value) if cp else ""
-    ok = bool(cp) and idx.same_expr(repo, fi, cp[-1].stmt, cp[-1].stmt.value,
-                                    "jnp.concatenate([p.at[1:].add(self._cumsum_nbranches[i]) for i, p in enumerate(parents)])")
-    col.check(ok, R, fi, "parents: non-root entries of cell i are shifted by the branch offset of cell i",
-              "p.at[1:].add(cumsum_nbranches[i])", f"comb_parents is {t}", node=cp[-1].node if cp else fi.node)
-    par = next((n for n in walk_no_nested(fi.node) if isinstance(n, ast.Assign) and unparse(n.targets[0]) == "parents"), None)
-    col.check(par is not None and idx.same_expr(repo, fi, par, par.value, "[cell.comb_parents for cell in cells]"), R, fi,
-              "parents are taken from the cells in order", "", f"parents is {unparse(par.value) if par else None}", node=par or fi.node)
+    verdict, why = _shifted_parents(repo, fi, cp[-1].value) if cp else ("UNDECIDED", "comb_parents is not stored")
+    col.add(R, fi, "parents: non-root entries of cell i are shifted by the branch offset of cell i", verdict,
+            "cell.comb_parents.at[1:].add(cumsum_nbranches[i]), cell by cell in order" if verdict == "DISCHARGED" else
+            f"comb_parents is {t[:80]}: {why}", node=cp[-1].node if cp else fi.node)
+    # (that the blocks are the cells' own parent vectors, in the order of the cell list, is part of the obligation above)
     cb = [s for s in ex.stores if s.kind == "attr" and s.key.name == "_cumsum_nbranches"]
     col.check(bool(cb) and idx.same_expr(repo, fi, cb[0].stmt, cb[0].stmt.value, "cumsum_leading_zero(self.nbranches_per_cell)"), R, fi,
               "branch offsets = leading-zero cumsum of the cells' branch counts", "", f"is {unparse(cb[0].stmt.value) if cb else None}",
